@@ -1330,6 +1330,48 @@ class PredFlow:
         return env
 
 
+class SpecialisedFn(Fn):
+    """fn under the assumption that its enum-typed parameter `param` (1-based MIR local) is the variant `variant`: every
+    switch on that parameter's discriminant keeps only the arm taken, so the symbolic result is the straight-line value the
+    function computes for that variant — however the dispatch is spelled (one match, a helper's match spliced in, ...)."""
+
+    def __init__(self, fn, param, variant):
+        self.crate = fn.crate
+        self.j = dict(fn.j)
+        self.path = fn.path
+        self.dk = fn.dk
+        self.name = fn.name
+        self.children = list(fn.children)
+        self.parent = fn.parent
+        self.inlined = getattr(fn, "inlined", ())
+        b = fn.body
+        sy = Sym(fn)
+        new_blocks = list(b.blocks)
+        self.resolved_switches = 0
+        for i in sorted(b.live_blocks()):
+            t = b.blocks[i].get("t") or {}
+            if t.get("k") != "switch" or not t.get("enum"):
+                continue
+            try:
+                d = strip_sym(sy.operand(t["discr"]))
+            except RecursionError:
+                continue
+            if d and d[0] == "discr":
+                d = strip_sym(d[1])
+            while isinstance(d, tuple) and d and d[0] in ("ref", "deref"):
+                d = strip_sym(d[1])
+            if not (isinstance(d, tuple) and d and d[0] == "arg" and d[1] == param - 1):
+                continue
+            hit = [a["bb"] for a in t["arms"] if a.get("variant") == variant]
+            tgt = hit[0] if hit else (t["otherwise"] if variant in (t.get("all_variants") or []) else None)
+            if tgt is not None:
+                new_blocks[i] = dict(b.blocks[i], t={"k": "goto", "target": tgt, "ln": t.get("ln"), "pruned_switch": True})
+                self.resolved_switches += 1
+        mir = dict(fn.j["mir"] if "mir" in fn.j else b.m, blocks=new_blocks)
+        self.j["mir"] = mir
+        self._body = Body(self, mir)
+
+
 class _PromotedFn:
     """Minimal Fn look-alike for a promoted MIR body."""
 
@@ -1713,6 +1755,27 @@ class InlinedFn(Fn):
 
             if dead:
                 prune(self)
+            # a private function handed to a higher-order function as a value (`opt.map(helper)`) runs as part of this
+            # function just as the closure `|x| helper(x)` would: it joins the region
+            raw = getattr(self.crate, "raw_by_path", None) or {}
+            have = {m_.path for m_ in Fn.region(self)}
+            depth = getattr(self, "_fnitem_depth", 0)
+            if depth < 2:
+                for m_ in list(Fn.region(self)):
+                    for blk in m_.body.blocks:
+                        t = blk.get("t") or {}
+                        if t.get("k") != "call":
+                            continue
+                        for a in t.get("args", []):
+                            fp = (a.get("const") or {}).get("fn") if isinstance(a, dict) else None
+                            base = raw.get(fp) if fp else None
+                            if base is None or fp in have or fp == self.path or not self.crate._should_inline(base):
+                                continue
+                            ch = InlinedFn(base, m_)
+                            ch._fnitem_depth = depth + 1
+                            ch.as_value = True
+                            m_.children.append(ch)
+                            have.add(fp)
         return Fn.region(self)
 
     def _resolve_closure_calls(self):
